@@ -64,14 +64,25 @@ def one(job, with_baseline, workers):
             signatures = sorted(set(re.findall(r"DISCREPANCY signature=(\S+)", proc.stdout)))
             result["checks"][check_id] = {"exit": proc.returncode, "signatures": signatures[:5],
                                           "wall_s": round(time.time() - t0, 1)}
+        if HARVEST and os.path.isdir(os.path.join(scratch, "replays")):
+            # keep the shrunk failing inputs: tools/harvest_regress.py turns them into the replay tier
+            kept = os.path.join(HARVEST, job["name"].replace(":", "-"))
+            shutil.copytree(os.path.join(scratch, "replays"), kept, dirs_exist_ok=True)
     finally:
         run(["git", "-C", "/repo", "worktree", "remove", "--force", tree])
         shutil.rmtree(scratch, ignore_errors=True)
     return result
 
 
+HARVEST = None
+
+
 def main():
+    global HARVEST
     args = sys.argv[1:]
+    if "--harvest" in args:
+        HARVEST = os.path.abspath(args[args.index("--harvest") + 1])
+        os.makedirs(HARVEST, exist_ok=True)
     jobs_n = int(args[args.index("--jobs") + 1]) if "--jobs" in args else 4
     only = args[args.index("--only") + 1] if "--only" in args else None
     with_baseline = "--baseline" in args
